@@ -55,6 +55,8 @@ def c01_cases(tier, seed):
     cs += gens.g_ent_cycles(12 if q else 32) + gens.g_ent_fanout([1, 2, 3, 16, 255, 256], [1, 2, 9, 10, 11]) + gens.g_ent_random(seed, 500 if q else 5000)
     cs += gens.g_cst(seed, 400 if q else 4000, flags="", renderings=2, hoist=True)
     cs += gens.g_nonchar() + gens.g_long(flags="")
+    cs += [Case(c.data, "", True, meta=c.meta) for c in gens.g_pieces_text(2 if q else 3)]
+    cs += [Case(c.data, "", True, meta=c.meta) for c in gens.g_pieces_attr(2 if q else 3)]
     # option sweep on a sample
     rnd = random.Random(seed)
     extra = []
@@ -71,6 +73,9 @@ def tree_cases(tier, seed, flags):
     cs += gens.g_ent_random(seed, 300 if q else 3000, flags=flags)
     cs += gens.g_mutations(seed, 1500 if q else 15000, flags=flags)
     cs += gens.g_long(flags=flags)
+    # text runs made of every piece sequence (literals, CDATA incl. empty, references, empty entities)
+    pieces = gens.g_pieces_text(2 if q else 3)
+    cs += [Case(c.data, flags, True, meta=c.meta) for c in pieces]
     return cs
 
 
@@ -280,6 +285,9 @@ def illformed_catalogue():
         ("<!DOCTYPE r [<!ENTITY e '<b>'><!ENTITY e '<b/>'>]><r>&e;</b></r>", "start tag in the binding (first) declaration, end tag outside"),
         ("<!DOCTYPE r [<!ENTITY e '&nope;'><!ENTITY e 'fine'>]><r>&e;</r>", "undefined entity through the binding (first) declaration"),
         ("<!DOCTYPE r [<!ENTITY e '&e;'><!ENTITY e 'fine'>]><r>&e;</r>", "self reference in the binding (first) declaration"),
+        ("<?a+b?><r/>", "no whitespace between a PI target and its content"), ("<r><?p+?></r>", "no whitespace between a PI target and its content"),
+        ("<r/><?p'x'?>", "no whitespace between a PI target and its content"),
+        ("<!DOCTYPE r [<?p=q?>]><r/>", "no whitespace between a PI target and its content (in the DTD)"),
         ("<r>&undefined;</r>", "undefined entity"), ("<r a='&undefined;'/>", "undefined entity in attribute"),
         ("<r>&#;</r>", "malformed character reference"), ("<r>&#x;</r>", "malformed character reference"),
         ("<r>&#xZ;</r>", "malformed character reference"), ("<r>& </r>", "bare ampersand"),
@@ -463,10 +471,16 @@ def api_docs(tier, seed, flags):
 
 
 def c10_cases(tier, seed):
+    q = tier == "quick"
     cs = api_docs(tier, seed, "ncptadlog")
     cs += [Case("<e>é</e>", "ncptadlog", True, meta={"gen": "nonascii"}),
            Case("<e>\n中\n😀é\n</e>", "ncptadlog", True, meta={"gen": "nonascii"}),
            Case("<e>р–À…😀</e>", "ncptadlog", True, meta={"gen": "continuation-bytes"})]
+    cs += gens.g_long_nonascii(flags="ncptalg", totals=(127, 128, 255, 256, 511, 512, 513))
+    # (text_pos_at for every offset is quadratic: larger sizes without the position sweep)
+    cs += gens.g_long_nonascii(flags="ncpalg", totals=(1024, 4096) if q else (1024, 4096, 65535, 65536))
+    # the documented saturation limits of the attribute position fields, with non-ASCII names
+    cs += [c for c in gens.g_long_nonascii(flags="pa", totals=(65535, 65536)) if c.meta["where"] in ("attr-name", "tag-name")]
     return cs
 
 
@@ -788,6 +802,11 @@ def scale_families(tier):
     fam.append(("entity-depth-8-fan-2", b"<!DOCTYPE r [" + decls + b"]><r>&l7;</r>", "ok"))
     deep = b"".join(b"<!ENTITY d%d '<e>&d%d;</e>'>" % (i, i - 1) if i else b"<!ENTITY d0 'z'>" for i in range(10))
     fam.append(("entity-chain-10-elements", b"<!DOCTYPE r [" + deep + b"]><r>&d9;</r>", "ok"))
+    # the boundaries of the 16-bit namespace index and of the saturating attribute position fields
+    for k in (65534, 65535, 65536, 65537):
+        fam.append(("distinct-namespaces-%d" % k, b"<r>" + b"".join(b"<p:e xmlns:p='u%d'/>" % i for i in range(k)) + b"</r>", "any"))
+    fam.append(("distinct-namespaces-one-element-65536", b"<r " + b" ".join(b"xmlns:p%d='u%d'" % (i, i) for i in range(65536)) + b"/>", "any"))
+    fam.append(("attributes-65537", b"<r " + b" ".join(b"a%d='v'" % i for i in range(65537)) + b"/>", "ok"))
     return fam
 
 
